@@ -104,6 +104,41 @@ def wide_cases(rng, n):
     return out
 
 
+def disjoint_block_cases(rng, n):
+    """every requested label occurs, no missing labels; the blocks hold DISJOINT, interleaved subsets of the labels ({e0,e2} | {e1,e3} ...),
+    so the groups meet the blocks in an order that is a non-trivial permutation of the request; sort True / False; every method"""
+    out = []
+    for _ in range(n):
+        k = rng.randint(3, 7)
+        expected = sorted(rng.sample(range(-3, 40), k))
+        nb = rng.randint(2, 3)
+        blocks = [[e for i, e in enumerate(expected) if i % nb == b] for b in range(nb)]
+        if rng.random() < 0.4:
+            rng.shuffle(blocks)
+        labels, chunks = [], []
+        method = rng.choice([None, "cohorts", "blockwise", "map-reduce"])
+        for bl in blocks:
+            if not bl:
+                continue
+            part = [x for x in bl for _ in range(rng.randint(1, 2))]
+            if rng.random() < 0.5 and method != "blockwise":
+                # (method='blockwise' rechunks 1-D labels assuming the members of a group are adjacent: keep them so)
+                rng.shuffle(part)
+            labels += part
+            chunks.append(len(part))
+        func = rng.choice(["sum", "max", "count", "nanfirst", "argmax", "mean", "nanmin", "argmin"])
+        ex = list(expected)
+        if rng.random() < 0.4:
+            rng.shuffle(ex)
+        c = {"func": func, "vals": [rng.randint(-5, 9) for _ in labels], "labels": labels, "expected": ex, "sort": rng.random() < 0.35,
+             "engine": "numpy" if "arg" in func else rng.choice(["numpy", "flox", None]), "chunks": [chunks],
+             "method": method, "fill_value": rng.choice([-99, "nan"])}
+        if "arg" in func and c["method"] == "blockwise":
+            c["method"] = "cohorts"
+        out.append(c)
+    return out
+
+
 def nontrivial(case):
     labs = {x for x in case["labels"] if x != "nan"}
     ex = set(case["expected"])
@@ -113,7 +148,8 @@ def nontrivial(case):
 def run(run: C.Run):
     rng = random.Random(run.seed)
     proofs_ok = P.front(run, translators=("registry",))
-    cases = F.corpus("C05") + gen_cases(rng, 6000 if run.tier == "thorough" else 1600) + wide_cases(rng, 1500 if run.tier == "thorough" else 250)
+    cases = F.corpus("C05") + gen_cases(rng, 6000 if run.tier == "thorough" else 1600) + wide_cases(rng, 1500 if run.tier == "thorough" else 250) \
+        + disjoint_block_cases(rng, 1500 if run.tier == "thorough" else 300)
     R.check_reduce_cases(run, cases, "C05", nontrivial, grouped_fn=grouped_fn, vs_eager=False, full=True)
     if not proofs_ok and not run.violations:
         run.violation({"property": "C05", "kind": "proof obligation no longer checks", "failed": P.failed_obligations(run)},
